@@ -24,6 +24,11 @@ ASSUMPTIONS = ["filter coefficient checked for 2 pi dt f_cut in [6e-5, 6e4] (out
 
 
 def run(ctx):
+    if ctx.shard == ctx.nshards - 1:
+        # the by-name calling convention of the shipped functions this property is about (see vlib/named.py)
+        from .. import named
+        named.monitor(ctx, ['rdd2:attitude_control', 'rdd2:attitude_rate_control', 'rdd2:input_acro', 'rdd2:input_velocity', 'rdd2_loglinear:so3_attitude_control', 'rdd2_loglinear:se23_attitude_control', 'rdd2_loglinear:se23_error'], ctx.rng("named"))
+        ctx.require("call_by_argument_name", "(by-name calls never evaluated)")
     units = ["rate_pid", "velocity_input", "position_loop", "sticks", "error_laws"]
     for i, u in enumerate(units):
         if i % len(units) != ctx.shard % len(units):
